@@ -83,6 +83,8 @@ def _ascending_for(ctx, test, sign_text):
 
 
 def check(ctx, rep):
+    from . import c14 as _c14, _share as _sh19
+    _sh19.share(ctx, rep, _c14, ('reference-kinds.',), 'a line number after THEN / ELSE / GOTO / GOSUB is stored as a line-number token: IF c THEN 100 ELSE 200 jumps to 200 when c is false')
     from ..sigils import check as _sigils
     _sigils(ctx, rep, ['pcbasic/basic/interpreter.py:Interpreter.for_'], 2)
     # ---- error sites --------------------------------------------------------
